@@ -8,18 +8,25 @@ LENIENT = [
     'C12: tree-shape facets (paths, back-links) belong to C11: a divergence limited to them abandons the path',
     "C12: Loop.switch's clears are decided with the loop properties (C13), not here",
 ]
-OPS_STATIC = '{"set", "push", "call", "hclear", "item", "snap", "sattr", "sitem"}'
+OPS_STATIC = '{"set", "push", "call", "hclear", "item", "snap", "sattr", "sitem", "fault"}'
+OPS_MIXED = '{"set", "call", "hclear", "item"}'
 OPS_MAPS = '{"set", "push", "call", "hclear", "item"}'
 
 
 def _configs(thorough):
     if thorough:
         return {'c12_static': rc.consts(maps=3, handles=1, ops=OPS_STATIC, builders=['m0'], phased=True),
-                'c12_two': rc.consts(maps=2, handles=2, ops=OPS_STATIC, builders=['m0'], phased=True)}
-    # every way to reach one handle (call, [] from each enclosing map, snapshot attribute / item), layered maps
+                'c12_two': rc.consts(maps=2, handles=2, ops=OPS_STATIC, builders=['m0'], phased=True),
+                'c12_mixed': rc.consts(maps=3, handles=1, layers=1, ops=OPS_MIXED, staging=True),
+                'c12_mixed_two': rc.consts(maps=2, handles=2, layers=1, ops=OPS_MIXED, builders=['m0'])}
+    # every way to reach one handle (call, [] from each enclosing map, snapshot attribute / item), layered maps,
+    # load() failing once at any point (ArmFault)
     # two handles (a value must never leak from one to the other), no snapshot
+    # handles stored, aliased in a second map and moved *after* they have loaded, accesses in between (not phased)
     return {'c12_static': rc.consts(maps=2, handles=1, ops=OPS_STATIC, builders=['m0'], phased=True),
-            'c12_two': rc.consts(maps=2, handles=2, ops=OPS_MAPS, builders=['m0'], phased=True)}
+            'c12_two': rc.consts(maps=2, handles=2, ops=OPS_MAPS, builders=['m0'], phased=True),
+            'c12_mixed': rc.consts(maps=3, handles=1, layers=1, ops=OPS_MIXED, staging=True, builders=['m0', 'm1'],
+                                   receivers=['m0'])}
 
 
 def run(res):
@@ -28,7 +35,11 @@ def run(res):
     # non-vacuity (no defect behind it): a cache that tests the stored value instead of the flag reloads None
     join = rc.switch_runs(res, [('c12_mutant_value_test', rc.consts(maps=2, handles=1, ops=OPS_STATIC, builders=['m0'], phased=True,
                                                              CacheTestsFlag=False),
-                          rc.INV_CACHE, rc.PROP_CACHE, ('AtMostOneLoad', 'CachedTellsTruth', 'SameObject'))])
+                          rc.INV_CACHE, rc.PROP_CACHE, ('AtMostOneLoad', 'CachedTellsTruth', 'SameObject')),
+                         # ... and one that sets the flag before load() returned claims to be cached after a failed load
+                         ('c12_mutant_flag_first', rc.consts(maps=2, handles=1, ops=OPS_STATIC, builders=['m0'], phased=True,
+                                                             FlagAfterLoad=False),
+                          rc.INV_CACHE, rc.PROP_CACHE, ('CachedTellsTruth', 'SameObject'))])
     for name, (c, ov) in _configs(thorough).items():
         g = rc.check_and_replay(res, name, c, ov, rc.INV_CACHE + ['MirrorsMap'], rc.PROP_CACHE + ['SnapshotReadsThrough'],
                                 own=FACETS_CACHE, probe=False, depth_all=3, walks=3000 if thorough else 1000, walk_len=30,
